@@ -183,6 +183,45 @@ def register(gen, T):
         for k, v in facts.items():
             out.append(f"def {k} : Bool := {'true' if v else 'false'}\n")
         out.append("\n")
+        # every arm of `match expr`: one per ir::Expression variant, none guarded (a guarded arm in front of a modelled one
+        # would special-case some operand shapes: `c ? a : b` with c = `a < b` written as `min(a, b)`, `x == x` as `true`, ...);
+        # the leaf / operator / call / ternary arms textually as modelled
+        evariants = [v for v, _ in enum_variants(T.src("ir/src/ir_expressions.rs"), "Expression")]
+        eexpected = {
+            "ir::Expression::Literal(lit)": "generate_literal(lit, context)?",
+            "ir::Expression::Variable(v)": "ast::Expression::Identifier(ast::ScopedIdentifier::trivial( context.get_variable_name(*v)?, ))",
+            "ir::Expression::Global(v)": "ast::Expression::Identifier(scoped_name_to_identifier( context.get_global_name_full(*v)?, ))",
+            "ir::Expression::TernaryConditional(expr_cond, expr_true, expr_false)": (
+                "{ let expr_cond = generate_expression(expr_cond, context)?; let expr_true = generate_expression(expr_true, context)?; "
+                "let expr_false = generate_expression(expr_false, context)?; let expr_cond = Box::new(Located::none(expr_cond)); "
+                "let expr_true = Box::new(Located::none(expr_true)); let expr_false = Box::new(Located::none(expr_false)); "
+                "ast::Expression::TernaryConditional(expr_cond, expr_true, expr_false) }"),
+            "ir::Expression::Call(id, ct, exprs)": (
+                "{ let tys = if let Some(template_instantiation_data) = context .module .function_registry "
+                ".get_template_instantiation_data(*id) { template_instantiation_data.template_args.as_slice() } else { &[] }; "
+                "if let Some(intrinsic) = context.module.function_registry.get_intrinsic_data(*id) { "
+                "generate_intrinsic_function(intrinsic, tys, exprs, context)? } else { generate_user_call(*id, ct, tys, exprs, context)? } }"),
+            "ir::Expression::IntrinsicOp(intrinsic, exprs)": "{ generate_intrinsic_op(intrinsic, exprs, context)? }",
+        }
+        erows = []
+        for pats, guard, result in match_arms(earms):
+            pat = " | ".join(pats)
+            km = re.fullmatch(r'ir::Expression::([A-Za-z0-9]+)(\(.*\))?', pat)
+            kind = km.group(1) if km else pat
+            erows.append((kind, guard is not None, pat not in eexpected or eexpected[pat] == normws(result)))
+        out.append("/-- `ir::Expression` -/\ndef expressionKinds : List String := " + T.lean_list(lean_str(k) for k in evariants) + "\n\n")
+        out.append("/-- the arms of `match expr` in generate_expression, in source order: (variant matched, the arm has a guard, the arm's\n"
+                   "body is textually the modelled one — checked for Literal / Variable / Global / TernaryConditional / Call / IntrinsicOp;\n"
+                   "the Sequence / Cast arms have their own facts above, the vector arms theirs in `Gen.HlslVecTables`) -/\n"
+                   "def expressionArms : List (String × Bool × Bool) :=\n  " +
+                   T.lean_list(f"({lean_str(k)}, {'true' if g else 'false'}, {'true' if ok else 'false'})" for k, g, ok in erows) + "\n\n")
+        ewrap = normws(ebody[:ebody.index("match expr")]) == "let expr =" and normws(ebody[ebody.index("match expr"):]).endswith("}; Ok(expr)")
+        out.append("/-- every expression variant has exactly one arm, no arm has a guard, the checked arms are the modelled ones, and\n"
+                   "the function is nothing but that match -/\n"
+                   "def expressionArmsAsModelled : Bool :=\n"
+                   "  expressionArms.length == expressionKinds.length &&\n"
+                   "  expressionKinds.all (fun k => (expressionArms.filter (fun a => a.1 == k)).length == 1) &&\n"
+                   f"  expressionArms.all (fun a => !a.2.1 && a.2.2) && {'true' if ewrap else 'false'}\n\n")
 
         # ---------------------------------------------------------------- generate_scope_block (label handling)
         sb = normws(fn_body(gen_rs, "generate_scope_block"))
@@ -285,6 +324,38 @@ def register(gen, T):
             "ast::InitStatement::Declaration(ast) } }; Ok(ast)")
         out.append("/-- generate_for_init: empty / one expression / the definitions in order under the first one's base type -/\n"
                    f"def forInitAsModelled : Bool := {'true' if fi_ok else 'false'}\n\n")
+
+        # ---------------------------------------------------------------- the small helpers Model.GenHlsl mirrors, pinned whole
+        pins = {
+            "generate_user_call": (
+                "let (object, arguments) = match ct { ir::CallType::FreeFunction => { let scoped_name = context.get_function_name_full(id)?; "
+                "let object = ast::Expression::Identifier(scoped_name_to_identifier(scoped_name)); (object, exprs.as_slice()) } "
+                "ir::CallType::MethodExternal => { let leaf_name = ast::ScopedIdentifier::trivial(context.get_function_name(id)?); "
+                "let object = generate_expression(&exprs[0], context)?; let method = ast::Expression::Member(Box::new(Located::none(object)), leaf_name); "
+                "(method, &exprs[1..]) } ir::CallType::MethodInternal => { let leaf_name = context.get_function_name(id)?; "
+                "let object = ast::Expression::Identifier(ast::ScopedIdentifier::trivial(leaf_name)); (object, exprs.as_slice()) } }; "
+                "let type_args = generate_template_type_args(tys, context)?; let args = generate_invocation_args(arguments, context)?; "
+                "let expr = ast::Expression::Call(Box::new(Located::none(object)), type_args, args); Ok(expr)"),
+            "generate_invocation_args": (
+                "let mut ast = Vec::new(); for expr in exprs { ast.push(Located::none(generate_expression(expr, context)?)); } Ok(ast)"),
+            "generate_variable_definition": (
+                "let var_def = context.module.variable_registry.get_local_variable(def.id); let storage_modifier = match var_def.storage_class { "
+                "ir::LocalStorage::Local => None, ir::LocalStorage::Static => Some(ast::TypeModifier::Static), }; "
+                "let precise_modifier = if var_def.precise { Some(ast::TypeModifier::Precise) } else { None }; "
+                "let name = context.get_variable_name(def.id)?.to_string(); "
+                "let (base, declarator) = generate_type_and_declarator(var_def.type_id, &name, false, context)?; "
+                "let local_type = prepend_modifiers(base, &[storage_modifier, precise_modifier]); "
+                "let init = generate_initializer(&def.init, context)?; "
+                "let init_declarator = ast::InitDeclarator { declarator, location_annotations: Vec::new(), init, }; "
+                "let def = ast::VarDef { local_type, defs: Vec::from([init_declarator]), }; Ok(def)"),
+            "generate_initializer": (
+                "if let Some(init) = init_opt { Ok(Some(generate_initializer_inner(init, context)?)) } else { Ok(None) }"),
+        }
+        out.append("/-- helper functions of the exporter whose whole body is textually the one `Model.GenHlsl` mirrors (call: callee name\n"
+                   "+ the arguments in order; variable definition: modifiers, type, name, initialiser) -/\n"
+                   "def helperBodies : List (String × Bool) :=\n  " +
+                   T.lean_list(f"({lean_str(k)}, {'true' if normws(fn_body(gen_rs, k)) == v else 'false'})" for k, v in pins.items()) + "\n"
+                   "def helperBodiesAsModelled : Bool := helperBodies.all (fun p => p.2)\n\n")
 
         # ---------------------------------------------------------------- generate_scalar_type
         sbody = fn_body(gen_rs, "generate_scalar_type")
